@@ -17,7 +17,7 @@ ASSUME TLCSet(2, JsonDeserialize(IOEnv.PAIRS))
 Pairs == TLCGet(2)
 ASSUME TLCSet(3, [p \in 1..Len(Plats) |-> Aux(Plats[p])])
 AUX   == TLCGet(3)
-ASSUME TLCSet(4, IF IOEnv.DEV = "known" THEN {"uprev", "djkrev"} ELSE {})
+ASSUME TLCSet(4, IF IOEnv.DEV = "known" THEN {"uprev", "djkrev", "nohbypx"} ELSE {})
 Dev   == TLCGet(4)
 \* TRACK = "1": the emitted links are kept in the history variable out (needed to print the expected routes); otherwise
 \* behaviours that differ only by the links taken (parallel cables, equivalent parents) share their states
